@@ -399,6 +399,7 @@ def check(run, replay=None):
         elif pid == "C07":
             scheds += [dict(s, epilogue="drain") for s in g]
             scheds += rand_scheds(rnd + other_cfgs("C07", th, rng), rng, nrand, ["drain", "closewait"], weights=dict(send=4, close=1, recv=4, cancel=0, release=4, advance=1, burst=2))
+            scheds += special_scheds(pid, th, rng)
         elif pid in ("C09", "C10"):
             for s in g:
                 has_cancel = any(c["c"] == "cancel" for c in s["cmds"])
@@ -827,6 +828,15 @@ def special_scheds(pid, th, rng):
             vals = list(range(1, n + 1))
             cmds = [{"c": "recvall", "o": "out", "d": n}, {"c": "recvall", "o": "exx", "d": n}] + [B(*([S()] * 50)) for _ in range(n // 50)] + [{"c": "close", "i": 0}]
             out.append({"cfg": C(kind=kind, forked=pid == "C09", par=3, cap=50, mode="try", inputs=[vals], fail=[v for v in vals if v % 10 != 0]), "cmds": cmds, "epilogue": "drain", "origin": "many-failures"})
+    if pid in ("C07", "C09"):
+        # values first, errors afterwards (the consumer shape of the repository's own tests: ToSeq(out), then the errors): more
+        # failures than any plausible fixed number of slots, but not more than the input capacity the error channel is sized by
+        for kind in ("Map", "FMap"):
+            for (cap, nfail) in ((20, 18), (40, 33), (70, 64)):
+                vals = list(range(1, cap + 1))
+                fail = vals[cap - nfail:]
+                cmds = [B(*([S()] * cap + [{"c": "close", "i": 0}])), {"c": "recvall", "o": "out", "d": 4 * cap}, {"c": "recvall", "o": "exx", "d": cap + 1}]
+                out.append({"cfg": C(kind=kind, forked=pid == "C09", par=2, cap=cap, mode="try", inputs=[vals], fail=fail), "cmds": cmds, "epilogue": "drain", "origin": "errors-after-values"})
     if pid in ("C06", "C09"):
         # error-jam: every element fails under Try and nobody ever reads the error channel; inputs of every length up to what the
         # stage can absorb and a little beyond; then cancel + close: the workers stuck handing over an error must still go away
